@@ -324,6 +324,22 @@ func (s *Sim) Yield() {
 		return
 	}
 	s.Steps++
+	if yieldTrace && schedLog != nil {
+		var pcs [6]uintptr
+		n := runtime.Callers(2, pcs[:])
+		fr := runtime.CallersFrames(pcs[:n])
+		var sb strings.Builder
+		for {
+			f, more := fr.Next()
+			if !strings.Contains(f.Function, "simrt") {
+				fmt.Fprintf(&sb, " %s:%d", f.Function[strings.LastIndex(f.Function, "/")+1:], f.Line)
+			}
+			if !more {
+				break
+			}
+		}
+		fmt.Fprintf(schedLog, "Y %d%s\n", s.Steps, sb.String())
+	}
 	if s.yieldHook != nil {
 		s.inspecting = true
 		s.yieldHook()
@@ -775,6 +791,7 @@ func (s *Sim) loop() {
 }
 
 var schedLog *os.File
+var yieldTrace = os.Getenv("VERIF_YIELDTRACE") != ""
 
 func init() {
 	if p := os.Getenv("VERIF_SCHEDLOG"); p != "" {
